@@ -18,7 +18,7 @@ CORE_ASSUME = ["identifiers are compared only for equality/order (interned order
                "extra_audits_file argument of AuditGraph::build (registry suggestions) not modelled"]
 for p, mods, corr in (
     ("C01", ["Vet.Props.Resolve"], ["corr.wire", "corr.depgraph", "corr.mapper", "corr.requirements", "corr.auditgraph", "corr.search", "corr.resolve"]),
-    ("C02", ["Vet.Props.Resolve", "Vet.Props.C02Report"], ["corr.wire", "corr.depgraph", "corr.mapper", "corr.requirements", "corr.auditgraph", "corr.search", "corr.resolve"]),
+    ("C02", ["Vet.Props.Resolve", "Vet.Props.C02Report", "Vet.Props.C06Publishers"], ["corr.wire", "corr.depgraph", "corr.mapper", "corr.requirements", "corr.auditgraph", "corr.search", "corr.resolve", "corr.resolve.report", "corr.publishers"]),
     ("C03", ["Vet.Props.C03"], ["corr.wire", "corr.depgraph", "corr.mapper", "corr.requirements"]),
     ("C04", ["Vet.Props.C04", "Vet.Props.Build", "Vet.Props.C04Keep", "Vet.Props.C11Violation"], ["corr.wire", "corr.mapper", "corr.auditgraph", "corr.resolve", "corr.update", "corr.cmd.wiring", "corr.cmd.ask"]),
     ("C06", ["Vet.Props.Build", "Vet.Props.C15", "Vet.Props.C06Publishers"], ["corr.wire", "corr.mapper", "corr.auditgraph", "corr.publishers"]),
